@@ -379,13 +379,32 @@ def max_arity(spec):
     return max([len(o[2]) if o[0] == 'g' else len(o[1]) if o[0] in 'bmk' else 1 for o in spec['ops']] + [0])
 
 
-def run_partitioner(name, c, k, seed, m=None):
-    """Returns ('ok', circuit) | ('rejected', msg) | ('exc', 'Type: msg')."""
+class _Hang(Exception):
+    pass
+
+
+_hangs = collections.Counter()   # per worker process: a partitioner that hung twice is not run again
+
+
+def _alarm(signum, frame):
+    raise _Hang()
+
+
+def run_partitioner(name, c, k, seed, m=None, limit=None):
+    """Returns ('ok', circuit) | ('rejected', msg) | ('exc', 'Type: msg').  A run that burns more than
+    `limit` seconds of CPU time (ITIMER_PROF: independent of machine load) is reported as 'exc' Timeout:
+    an endless loop is a failure to return."""
+    import signal
     im = impl()
     P = im['P']
     im['np'].random.seed(seed % (2 ** 31))
     random.seed(seed)
+    limit = limit or float(os.environ.get('VERIF_C08_LIMIT', '240'))
+    if _hangs[name] >= 2:
+        return 'exc', 'Timeout: not run again after two hangs of this partitioner in this worker'
+    old = signal.signal(signal.SIGPROF, _alarm)
     try:
+        signal.setitimer(signal.ITIMER_PROF, limit)
         if name == 'Quick':
             run_pass(P.QuickPartitioner(k), c)
         elif name == 'Scan':
@@ -408,11 +427,17 @@ def run_partitioner(name, c, k, seed, m=None):
             run_pass(im['Extend'](m), c)
         else:
             raise ValueError(name)
+    except _Hang:
+        _hangs[name] += 1
+        return 'exc', 'Timeout: no result after %ds of CPU time' % limit
     except Exception as e:  # noqa
         msg = '%s: %s' % (type(e).__name__, str(e).split('\n')[0][:90])
         if any(d in msg for d in DOCUMENTED_REJECT):
             return 'rejected', msg
         return 'exc', msg
+    finally:
+        signal.setitimer(signal.ITIMER_PROF, 0)
+        signal.signal(signal.SIGPROF, old)
     return 'ok', c
 
 
@@ -451,6 +476,8 @@ def eval_partitioner(name, spec, k, seed, want_lines=True):
 
 
 def exc_class(msg):
+    if msg.startswith('Timeout'):
+        return 'hang'
     if 'Region goes off circuit' in msg:
         return 'region_off_circuit'
     if 'Unable to process all pending bins' in msg:
@@ -600,7 +627,10 @@ DEADLOCK = dict(width=4, ops=[['g', 'CNOTGate', [0, 1], []], ['b', [1]], ['g', '
 
 
 def detect_fx():
-    """Is fixes/C08.Q1.patch (blocked-qudit propagation at barriers) present in the tree under test?"""
+    """The expected tree has the C08.Q1 repair (/repo ff12728: blocked-qudit propagation when a BarrierBin is
+    created) and is compared with the model `quick ... fx = true`.  A tree without it (a regression) is
+    detected by running the 5-operation witness: that is reported as a VIOLATION and the rest of the
+    correspondence run then uses the fx = false model so that further differences stay visible."""
     c = build(DEADLOCK)
     try:
         run_pass(impl()['P'].QuickPartitioner(3), c)
@@ -656,7 +686,7 @@ def make_cases(ctx):
         # the region-growing partitioners are slow on wide / deep inputs: bounded sizes
         if spec['width'] <= 10 and n <= 250 and n > 0:
             parts += ['Scan', 'GTQCP', 'TDAG']
-            if n <= 150:
+            if (k <= 4 and n <= 150) or n <= 40:     # surround() is exponential in the block size
                 parts.append('Clustering')
             if n <= 15 or (k <= 4 and n <= 30) or (k <= 3 and n <= 50):     # surround() is exponential in the block size
                 parts.append('Greedy')
@@ -688,6 +718,7 @@ def run(ctx: vf.Ctx):
     t0 = time.time()
     fx = detect_fx()
     ctx.cov['quick_barrier_block_fix_present'] = bool(fx)
+    ctx.cov['quick_model_flag'] = 'fx = true (repaired algorithm, expected)' if fx else 'fx = false (tree WITHOUT the C08.Q1 repair: regression)'
     if not fx:
         c = dict(partitioner='Quick', spec=DEADLOCK, k=3, seed=0)
         ctx.violation(sig_of('Quick', 'exception:RuntimeError:pending_bins', DEADLOCK, 3), c, 'a partitioned circuit',
